@@ -1,28 +1,167 @@
 import AmVerif.Model.Basic
 /-
-  C27 model, part 3 (fragment): `TransactionInner::update_list` (transaction/inner.rs) on a list of
-  scalars, at the level of the visible list (ops, ids and conflicts are not modelled; nested values,
-  `update_map` and `batch_*` are NOT modelled — they are decided by the direct oracles of the `recon`
-  harness engine).  Transcribed loop by loop:
+  C27 model, part 3 (fragment): `TransactionInner::update_list` (transaction/inner.rs, as fixed by
+  /repo commit 072d9542b) on a list of scalars, at the level of the visible list (ops, ids and
+  conflicts are not modelled; nested values, `update_map` and `batch_*` are NOT modelled — they are
+  decided by the direct oracles of the `recon` harness engine).  Transcribed loop by loop:
 
     for (index, (old, new)) in zip(old_items ++ None…, new_values ++ None…).enumerate() {
         (Some, Some) => update_value(list, Seq(index), new, Some(old))   // scalar: put(index, new)
         (Some, None) => to_delete += 1
         (None, Some) => update_value(list, Seq(index), new, None)        // scalar: insert(index, new)
         (None, None) => break }
-    for i in (0..to_delete).rev() { delete(list, Seq(i)) }
+    let keep = new_value.len();
+    for i in (keep..keep + to_delete).rev() { delete(list, Seq(i)) }
 -/
 namespace AmVerif.Reconcile
 
+/-- body of the zip loop at position `i` -/
+def zipStep {α : Type} (old new : List α) (acc : List α) (i : Nat) : List α :=
+  match old[i]?, new[i]? with
+  | some _, some v => acc.set i v
+  | none, some v => acc.insertIdx i v
+  | _, _ => acc
+
+/-- `for i in (keep..keep + d).rev() { delete(i) }` -/
+def delLoop {α : Type} (keep : Nat) : (d : Nat) → List α → List α
+  | 0, acc => acc
+  | d+1, acc => delLoop keep d (acc.eraseIdx (keep + d))
+
 /-- `update_list` on scalars -/
 def updateListFlat {α : Type} (old new : List α) : List α :=
-  let step (acc : List α) (i : Nat) : List α :=
-    match old[i]?, new[i]? with
-    | some _, some v => acc.set i v
-    | none, some v => acc.insertIdx i v
-    | _, _ => acc
-  let acc := (List.range (max old.length new.length)).foldl step old
+  let acc := (List.range (max old.length new.length)).foldl (zipStep old new) old
   let toDelete := old.length - new.length
-  (List.range toDelete).reverse.foldl (fun acc i => acc.eraseIdx i) acc
+  delLoop new.length toDelete acc
+
+/-- the code before the fix: `for i in (0..to_delete).rev() { delete(i) }` -/
+def updateListFlatBeforeFix {α : Type} (old new : List α) : List α :=
+  let acc := (List.range (max old.length new.length)).foldl (zipStep old new) old
+  delLoop 0 (old.length - new.length) acc
+
+/-! ### nested values: `update_object` / `update_map` / `update_list` / `update_value`
+
+  Value-level transcription (what `hydrate` shows, conflicts ignored; ops, ids, preds are not
+  modelled).  Scalars and texts are kept as their wire tokens; map keys as hex strings, a map is an
+  association list sorted by key.  `(Text, Text)` reconciliation is `update_text`
+  (`Model/UpdateText.lean`; reaches its target for aligned texts, `C27_update_text_aligned_partial`)
+  and is summarised here by its target.  The mutual recursion of the Rust is bounded by fuel
+  (`none` = out of fuel). -/
+
+inductive Val where
+  | scalar (tok : String)
+  | text (hex : String)
+  | list (xs : List Val)
+  | map (kvs : List (String × Val))
+  deriving Repr, Inhabited
+
+def lookupKey (k : String) : List (String × Val) → Option Val
+  | [] => none
+  | (k', v) :: r => if k' == k then some v else lookupKey k r
+
+/-- `put` on a map (sorted by key) -/
+def insertKey (k : String) (v : Val) : List (String × Val) → List (String × Val)
+  | [] => [(k, v)]
+  | (k', v') :: r =>
+    if k == k' then (k, v) :: r
+    else if k < k' then (k, v) :: (k', v') :: r
+    else (k', v') :: insertKey k v r
+
+def eraseKey (k : String) : List (String × Val) → List (String × Val)
+  | [] => []
+  | (k', v') :: r => if k' == k then r else (k', v') :: eraseKey k r
+
+/-- `update_list` with `rec` standing for `update_value` -/
+def updateListWith (rec : Option Val → Val → Option Val) (old new : List Val) : Option (List Val) := do
+  let acc ← (List.range (max old.length new.length)).foldlM (fun acc i =>
+    match old[i]?, new[i]? with
+    | some o, some v => do let r ← rec (some o) v; pure (acc.set i r)
+    | none, some v => do let r ← rec none v; pure (acc.insertIdx i r)
+    | _, _ => pure acc) old
+  pure (delLoop new.length (old.length - new.length) acc)
+
+/-- `update_map` with `rec` standing for `update_value`: existing keys in `map_range` (key) order are
+    updated or marked for deletion, then the additions in key order, then the deletions in key order -/
+def updateMapWith (rec : Option Val → Val → Option Val) (old new : List (String × Val)) :
+    Option (List (String × Val)) := do
+  let (acc, delenda) ← old.foldlM (fun (st : List (String × Val) × List String) (kv : String × Val) =>
+    match lookupKey kv.1 new with
+    | some nv => do let r ← rec (some kv.2) nv; pure (insertKey kv.1 r st.1, st.2)
+    | none => pure (st.1, st.2 ++ [kv.1])) (old, [])
+  let additions := new.filter fun kv => (lookupKey kv.1 old).isNone
+  let acc ← additions.foldlM (fun acc kv => do let r ← rec none kv.2; pure (insertKey kv.1 r acc)) acc
+  pure (delenda.foldl (fun acc k => eraseKey k acc) acc)
+
+/-- `update_value(parent, key, new, old)`: what the register holds afterwards -/
+def updateValue : Nat → Option Val → Val → Option Val
+  | 0, _, _ => none
+  | f+1, some (.map o), .map n => (updateMapWith (updateValue f) o n).map .map
+  | f+1, some (.list o), .list n => (updateListWith (updateValue f) o n).map .list
+  | _+1, some (.text _), .text n => some (.text n)
+  -- "changing the type of the existing object, or inserting an entirely new object"
+  | f+1, _, .map n => (updateMapWith (updateValue f) [] n).map .map
+  | f+1, _, .list n => (updateListWith (updateValue f) [] n).map .list
+  | _+1, _, .text n => some (.text n)
+  | _+1, _, .scalar s => some (.scalar s)
+
+inductive UErr where
+  | changeType      -- `UpdateObjectError::ChangeType`
+  | outOfFuel
+  deriving Repr, DecidableEq
+
+/-- `update_object(obj, new)` where `obj` currently hydrates to `old` -/
+def updateObject (fuel : Nat) (old new : Val) : Except UErr Val :=
+  let run (r : Option Val) : Except UErr Val := match r with | some v => .ok v | none => .error .outOfFuel
+  match old, new with
+  | .map o, .map n => run ((updateMapWith (updateValue fuel) o n).map .map)
+  | .list o, .list n => run ((updateListWith (updateValue fuel) o n).map .list)
+  | .text _, .text n => .ok (.text n)
+  | _, _ => .error .changeType
+
+/-! wire format `M{khex=V;…}  L[V;…]  T<hex>  <scalar token>` -/
+
+def stopChar (c : Char) : Bool := c == ';' || c == ']' || c == '}'
+
+mutual
+def parseVal : Nat → List Char → Option (Val × List Char)
+  | 0, _ => none
+  | f+1, 'M' :: '{' :: rest => parseEntries f rest []
+  | f+1, 'L' :: '[' :: rest => parseItems f rest []
+  | _+1, 'T' :: rest => some (.text (String.ofList (rest.takeWhile (fun c => !stopChar c))), rest.dropWhile (fun c => !stopChar c))
+  | _+1, cs => some (.scalar (String.ofList (cs.takeWhile (fun c => !stopChar c))), cs.dropWhile (fun c => !stopChar c))
+def parseEntries : Nat → List Char → List (String × Val) → Option (Val × List Char)
+  | 0, _, _ => none
+  | _+1, '}' :: rest, acc => some (.map acc.reverse, rest)
+  | f+1, cs, acc =>
+    let key := String.ofList (cs.takeWhile (· != '='))
+    match cs.dropWhile (· != '=') with
+    | '=' :: r =>
+      match parseVal f r with
+      | some (v, ';' :: r') => parseEntries f r' ((key, v) :: acc)
+      | some (v, r') => parseEntries f r' ((key, v) :: acc)
+      | none => none
+    | _ => none
+def parseItems : Nat → List Char → List Val → Option (Val × List Char)
+  | 0, _, _ => none
+  | _+1, ']' :: rest, acc => some (.list acc.reverse, rest)
+  | f+1, cs, acc =>
+    match parseVal f cs with
+    | some (v, ';' :: r') => parseItems f r' (v :: acc)
+    | some (v, r') => parseItems f r' (v :: acc)
+    | none => none
+end
+
+def parse (s : String) : Option Val :=
+  match parseVal (s.length + 1) s.toList with
+  | some (v, []) => some v
+  | _ => none
+
+def showFuel : Nat → Val → String     -- `fuel`-bounded printer
+  | 0, _ => "?"
+  | _+1, .scalar t => t
+  | _+1, .text h => "T" ++ h
+  | f+1, .list xs => "L[" ++ ";".intercalate (xs.map (showFuel f)) ++ "]"
+  | f+1, .map kvs => "M{" ++ ";".intercalate (kvs.map fun kv => kv.1 ++ "=" ++ showFuel f kv.2) ++ "}"
+
+def showVal (v : Val) : String := showFuel 64 v
 
 end AmVerif.Reconcile
